@@ -437,16 +437,16 @@ class yanny(OrderedDict):
         try:
             var_type = cache[variable]
         except KeyError:
-            defl = [x for x in self._symbols['struct']
-                    if x.find(structure.lower()) > 0]
-            defu = [x for x in self._symbols['struct']
-                    if x.find(structure.upper()) > 0]
-            if len(defl) != 1 and len(defu) != 1:
+            #
+            # Select the definition by its own name, not by searching for
+            # the name anywhere in the text of every definition.
+            #
+            namere = re.compile(r'\}\s*(\w+)\s*;$')
+            definition = [x for x in self._symbols['struct']
+                          if namere.search(x).group(1).upper() ==
+                          structure.upper()]
+            if len(definition) != 1:
                 return None
-            elif len(defl) == 1:
-                definition = defl
-            else:
-                definition = defu
             typere = re.compile(
                 r'(\S+)\s+{0}([\[<].*[\]>]|);'.format(variable))
             (typ, array) = typere.search(definition[0]).groups()
